@@ -1,4 +1,4 @@
-"""Reproductions of the ten genuine defects (F1-F10) against the real code.
+"""Reproductions of the genuine defects (F1-F11) against the real code.
 Not part of any check (checks are static); kept as the demonstration that each
 finding is a defect of zach401/acnportal and that the `fix:` commit repairs it.
 Usage: /venv/bin/python /verif/findings/repro.py   (prints PASS/FAIL per finding)"""
@@ -120,9 +120,22 @@ def f10():
         return False
     return True
 
+def f11():
+    # algorithm-side linear check must agree with the network-side one on a multi-period schedule
+    from acnportal.acnsim.interface import InfrastructureInfo
+    from acnportal.algorithms.utils import infrastructure_constraints_feasible
+    nw = ChargingNetwork()
+    for i in ("a", "b"):
+        nw.register_evse(EVSE(i, max_rate=32), 208, 0)
+    nw.add_constraint(Current(["a", "b"]), 10, name="c")
+    S = np.array([[4.5, 4.5], [4.5, 4.5]])          # 9 A <= 10 A in each of the two periods
+    info = InfrastructureInfo(nw.constraint_matrix, nw.magnitudes, nw._phase_angles, nw._voltages, nw.constraint_index,
+                              nw.station_ids, nw.max_pilot_signals, nw.min_pilot_signals)
+    return nw.is_feasible(S, linear=True) == infrastructure_constraints_feasible(S, info, linear=True) is True
+
 if __name__ == "__main__":
     bad = 0
-    for i, f in enumerate([f1, f2, f3, f4, f5, f6, f7, f8, f9, f10], 1):
+    for i, f in enumerate([f1, f2, f3, f4, f5, f6, f7, f8, f9, f10, f11], 1):
         try:
             ok = f()
         except Exception as e:
